@@ -619,8 +619,12 @@ def run(case, ctx):
         ok_codes = (0,) if exp['executed'] else (0, 5)   # 5: no tests ran
         if 'TestMissing' in argv['names']:
             ok_codes = (1,)         # the run has an error
+        if r.returncode < 0:
+            # killed by a signal while shutting down (a native library's
+            # thread): the environment's doing; what ran is still compared
+            out.label('subprocess-killed-by-signal-at-exit')
         if sorted(extra_runs) != exp['executed'] or (
-                r.returncode not in ok_codes):
+                r.returncode >= 0 and r.returncode not in ok_codes):
             out.violate('subprocess-agrees', 'python-module.py',
                         'python module.py %s: exit %d, executed %r, '
                         'expected %r; stderr %r'
